@@ -222,12 +222,17 @@ def meta_fine_stream(props, name="meta-fine-grained-exploration"):
         R0 = C.rng("conc-meta-fine")
         res = Result(name)
         n = {"quick": 100, "search": 600, "thorough": 4000}[tier]
+        import extract
+        focus = sorted(extract.changed_functions())
         for i in range(n):
             seed = R0.getrandbits(48)
             R = random.Random(seed)
             scn = CM.gen_scenario(R)
             scn["fine_seed"] = seed ^ 0xA5A5A5
             scn["fine_p"] = R.choice([0.2, 0.6, 1.0])
+            if focus and i % 3:
+                scn["fine_focus"] = focus
+                scn["fine_p"] = R.choice([0.02, 0.1])
             SR = random.Random(seed ^ 0x9E3779B97F4A)
             choices = []
 
